@@ -467,9 +467,20 @@ def limitSize (s : Pool) : Pool × List Nat := limitLoop (s.entries.length + 1) 
 def expiredIds (s : Pool) (now : Nat) : List Nat :=
   (s.entries.filter fun e => s.cfg.expiry + e.ts < now).map (·.tx.id)
 
-/-- `TxPool::remove_expired`, removing in the given order (the Rust code iterates a slab; the order
-    is an input of the model) -/
+/-- `TxPool::remove_expired` as repaired by /repo 3724ae4: every expired id, in the order given (the
+    Rust code iterates a slab; the order is an input of the model), leaves with its descendants
+    (`remove_entry_and_descendants`; an id that already left yields nothing) -/
 def removeExpired (s : Pool) (order : List Nat) : Pool :=
+  order.foldl (fun s id => (removeWithDesc s id).1) s
+
+/-- the ids `remove_expired` reports through the reject callback -/
+def removeExpiredIds (s : Pool) (order : List Nat) : List Nat :=
+  (order.foldl (fun (acc : Pool × List Nat) id =>
+    let r := removeWithDesc acc.1 id
+    (r.1, acc.2 ++ idsOf r.2)) (s, [])).2
+
+/-- `remove_expired` before 3724ae4 (F5): `remove_entry` of the expired entries only -/
+def removeExpiredPreF5 (s : Pool) (order : List Nat) : Pool :=
   order.foldl (fun s id => (removeEntry s id).1) s
 
 def insertByAncCount (e : Entry) : List Entry → List Entry
